@@ -150,6 +150,9 @@ impl Object for Function {
                         };
 
                         let size = try_opt!(info.size);
+                        if size.contains(&0) {
+                            bail!("sampled function with a /Size of zero");
+                        }
                         let range = try_opt!(info.range);
                         let encode = info.encode.unwrap_or_else(|| size.iter().flat_map(|&n| [0.0, (n-1) as f32]).collect());
                         let decode = info.decode.unwrap_or_else(|| range.clone());
